@@ -29,7 +29,7 @@ RULES = {
     "C13": "pairs (G, G') where G uses `>Rule` at random depths (inside [], {}, choices, other included bodies; skipping and non-skipping includers; included rules carrying @no_skip_ws/@memoize/@position/@check/@string) and G' is the model with every include replaced by the parenthesised body; compared: public type declarations (text before the private module, byte-equal), and for every input ok flag, Debug tree (positions included) and error position; G is also compared with the interpreter. Non-trivial = the included body was entered on that input inside a choice arm / optional / closure; distinct (grammar pair, rule, input).",
     "C20": "histories: for each grammar (profile 'memo' + left-recursive shapes + a sixth from profile 'unicode') generated lists of inputs are parsed, then re-parsed in a generated order with repetitions OUT OF ONE REUSED BUFFER (same address, for equal-length inputs the same address range), each result must equal its first-time result; schedules: generated rounds of 2-4 (grammar, rule) pairs x 8-40 inputs (every third an equal-length variant of its neighbour) are parsed sequentially (reference) and then by 2-16 threads (512 MB stacks, each parsing out of its own reused buffer) under a generated assignment, barrier start, every item twice; in a quarter of the rounds all threads first parse the same, longest input at once; all results must equal the reference. Interleavings are not controlled (stated limit). Non-trivial = history with equal-length inputs / concurrent round with >= 2 threads and equal-length inputs; distinct histories / rounds.",
     "C01": "grammars: four fifths generator profile 'core', one fifth profile 'unicode' (terminals over the whole Unicode range) (all operators, literals incl. escapes / case-insensitive, ranges, char, @char classes, $, skipping and non-skipping rules), every rule reachable through an @export @position wrapper; inputs: grammar-directed derivations, mutations of them, alphabet strings (<= max_len bytes), rarely long periodic ones, 'pumped' ones (a recursive path of the grammar followed to a nesting depth of up to ~1200, dense around powers of two and round numbers) and ones with an unusual first character (BOM, ZWSP, NUL ...); oracle: reference PEG interpreter (accept/reject + consumed bytes), termination by tracer fuel. Non-trivial = the oracle's evaluation had a backtrack after partial consumption, a closure stopped on a partial iteration, a lookahead, a range end-point hit or a case-folded insensitive match; distinct = distinct (grammar, rule, input).",
-    "C02": "grammars: profile 'fields' (nested seq/choice/optional/closure/include around named fields, repeated and multi-type fields, boxed fields, overrides, @string); oracle: interpreter's value rendered as derive(Debug) text, compared textually then structurally. Non-trivial = successful parse in which a binding was abandoned in a failed arm/optional/iteration, or a field received values from >= 2 matches, or an enum-typed field/override was set; distinct (grammar, rule, input).",
+    "C02": "grammars: profile 'fields' (nested seq/choice/optional/closure/include around named fields, repeated and multi-type fields, boxed fields, overrides, @string; field and rule names also from the raw-identifier keywords `type`, `match`, `where` ...); oracle: interpreter's value rendered as derive(Debug) text, compared textually then structurally. Non-trivial = successful parse in which a binding was abandoned in a failed arm/optional/iteration, or a field received values from >= 2 matches, or an enum-typed field/override was set; distinct (grammar, rule, input).",
     "C04": "grammars: profile 'unicode' (literals/ranges/classes over the whole Unicode range, insensitive literals, char, externs returning correct byte lengths); inputs mix ASCII and multi-byte characters; all three tracer modes under catch_unwind with the cfg(peginator_verif) boundary assertion on; every exposed offset checked (is_char_boundary, <= len), every string/char of the tree must occur in the input. Non-trivial = a terminal was attempted at an offset holding a multi-byte character; distinct (grammar, rule, input).",
     "C08": "grammars: profile 'ws' (skipping and @no_skip_ws rules calling each other, includes, @string, lookaheads, $, char fields, externs, custom Whitespace rules); inputs: derivations with, independently at every token gap, nothing / one of the five ASCII whitespace chars / runs / near misses (\\x0B, U+00A0, U+2003, U+FEFF, ...); oracle: the interpreter only (accept, consumed bytes, tree). Non-trivial = whitespace skipped inside a nested construct, or a near-miss character met at a skip point, or whitespace skipped in a grammar mixing both settings; distinct (grammar, rule, input).",
     "C09": "grammars: profile 'pos' (random subsets of rules @position incl. @string and enum overrides, memoized rules with shared prefixes, multi-byte input, whitespace) plus 1/5 structured left-recursive grammars; oracle: interpreter positions inside the expected Debug tree plus interpreter-free invariants (valid byte span, string == slice, child inside parent, list elements ordered and non-overlapping, root at 0, PegPosition trait == field). Non-trivial = successful parse with >= 2 position nodes and (whitespace skipped | multi-byte consumed | cache revisit/growth); distinct (grammar, rule, input).",
